@@ -1,6 +1,7 @@
 import BqVerif.Proofs.Worker
 import BqVerif.Proofs.Cleanup
 import BqVerif.Proofs.WorkersInv
+import BqVerif.Proofs.PathOrderNet
 import BqVerif.Model.RuntimeWitness
 /-!
 # C12 — cancelling removes the work everywhere and disturbs nothing else
@@ -134,6 +135,47 @@ theorem C12_G_cleanup_at_quiescence_partial (tbl : Table) (attached : Bool) (nw 
     intro c hc1 hc2
     have := hc.pending t ht ha ⟨c, hc1, hc2⟩
     rw [hidle.2] at this; cases this
+
+/-- **SUBMIT before CANCEL: what a worker sends in one loop iteration (L).**  For a worker whose
+    mailbox ids are below its counter (`Fresh`, an invariant) and every address `a`: in the list of
+    messages one loop iteration emits, no task with address `a` comes after a CANCEL of `a`
+    (`Worker.cancel` needs the mailbox, which the `submit` / `map` that sent the task created); a
+    CANCEL of `a` is only emitted for a mailbox id of this worker below its new counter; and every
+    task emitted was created in this iteration (mailbox id at or above the old counter). -/
+theorem C12_L_submit_before_cancel (tbl : Table) (w : Worker) (hf : Fresh w) (a : Addr) :
+    okSeq a (w.step tbl).out = true
+    ∧ ((w.step tbl).out.any (isCancel a) = true → a.w = w.id ∧ a.m < (w.step tbl).w.counter)
+    ∧ (∀ msg ∈ (w.step tbl).out, hasTask a msg = true → a.w = w.id ∧ w.counter ≤ a.m) :=
+  ⟨(step_linv a tbl w hf).ok, (step_linv a tbl w hf).can, step_tasks_fresh a tbl w⟩
+
+/-- **First link of the path-ordering argument (G, flat network, all schedules).**  In every
+    reachable state, on the channel from any worker to the server no task with address `a` is queued
+    behind a CANCEL of `a`, and a CANCEL of `a` queued there is for a mailbox id of that worker below
+    its counter: the server sees the SUBMIT of an address before the CANCEL of that address.
+    (`_partial`: what is still missing for "no task is delivered after the CANCEL of its own
+    address" - and with it the unrestricted `C12_cleanup_at_quiescence` - is the second half: the
+    server forwards in order, i.e. the same statement for the channels server → worker together
+    with "a task of `a` still on its way to the server ⇒ no CANCEL of `a` has left the server";
+    see the design note.) -/
+theorem C12_G_worker_link_order_partial (tbl : Table) (attached : Bool) (nw nc : Nat) (trs : List Tr)
+    (hwf : ∀ t ∈ trs, t.wf) :
+    let n := (Net.initFlat tbl attached nw nc).exec trs
+    ∀ w ∈ n.workers, ∀ a : Addr,
+      okSeq a (chanGet n.chans (.wrk w.id, .server)) = true
+      ∧ ((chanGet n.chans (.wrk w.id, .server)).any (isCancel a) = true → a.w = w.id ∧ a.m < w.counter) := by
+  intro n w hw a
+  have h := (PInv.init tbl attached nw nc).exec (GInv.init tbl attached nw nc) trs hwf
+  exact ⟨(h.link w hw a).ok, (h.link w hw a).can⟩
+
+/-- non-vacuity: after the root of the drift run submitted its child and cancelled it, the channel
+    worker 0 → server holds the task and the CANCEL of address (0, 0, 0), in this order -/
+example :
+    let n := (Net.initFlat driftTable false 1 1).exec (driftRun.take 6)
+    (chanGet n.chans (.wrk 0, .server)).any (hasTask ⟨0, 0, 0⟩) = true
+    ∧ (chanGet n.chans (.wrk 0, .server)).any (isCancel ⟨0, 0, 0⟩) = true
+    ∧ okSeq ⟨0, 0, 0⟩ (chanGet n.chans (.wrk 0, .server)) = true
+    ∧ okSeq ⟨0, 0, 0⟩ [Msg.cancel ⟨0, 0, 0⟩, Msg.submit { addr := ⟨0, 0, 0⟩, comp := 0, crumbs := [], prog := 0, tag := [] }] = false := by
+  decide +kernel
 
 /-- **Completion-time clean-up** (holds since 6ca9fa1): when a task returns and
     `_process_task_completion` does not raise, every mailbox the task still owned - those it
